@@ -34,9 +34,10 @@ func init() {
 
 // registrar is the scripted registry (the existing tars.Registrar seam).
 type registrar struct {
-	mu     sync.Mutex
-	active []endpointf.EndpointF
-	calls  int
+	mu       sync.Mutex
+	active   []endpointf.EndpointF
+	inactive []endpointf.EndpointF
+	calls    int
 }
 
 func (r *registrar) Registry(ctx context.Context, s *registry.ServantInstance) error   { return nil }
@@ -48,7 +49,7 @@ func (r *registrar) QueryServant(ctx context.Context, id string) ([]registry.End
 	if os.Getenv("C15_DEBUG") != "" {
 		simrt.Event("registry queried (%d)", r.calls)
 	}
-	return append([]endpointf.EndpointF(nil), r.active...), nil, nil
+	return append([]endpointf.EndpointF(nil), r.active...), append([]endpointf.EndpointF(nil), r.inactive...), nil
 }
 func (r *registrar) QueryServantBySet(ctx context.Context, id, set string) ([]registry.Endpoint, []registry.Endpoint, error) {
 	return r.QueryServant(ctx, id)
@@ -60,6 +61,7 @@ type phase struct {
 }
 
 type node struct {
+	judgeFrom time.Duration // the failover rules are evaluated for this endpoint from here on (after a stay on the registry's inactive list)
 	idx    int
 	host   string
 	port   int
@@ -102,6 +104,7 @@ type S struct {
 	checkMs    int
 	finished   bool
 	hashMode   bool
+	inactive   bool
 	keepAlive  int
 	regChanges bool
 	mgrMode    bool // C13 at manager level: the registry's list changes while calls select endpoints
@@ -141,11 +144,24 @@ func (s *S) Run(c *scen.Ctx) {
 	s.checkMs = []int{1000, 500, 2000}[simrt.Draw(3, "c15.check")]
 	runLen := time.Duration(100+simrt.Draw(200, "c15.len")) * time.Second
 	s.reg = &registrar{}
+	// one endpoint spends a while on the registry's inactive list (an operator takes it out and puts
+	// it back) before anything else happens to it
+	inactNode, inactFrom, inactTo := -1, time.Duration(0), time.Duration(0)
+	if !s.hashMode && !s.mgrMode && simrt.Draw(5, "c15.inactive") == 4 {
+		inactNode = simrt.Draw(nn, "c15.inactwhich")
+		inactFrom = time.Duration(3+simrt.Draw(10, "c15.inactfrom")) * time.Second
+		inactTo = inactFrom + time.Duration(4+simrt.Draw(12, "c15.inactfor"))*time.Second
+		s.inactive = true
+	}
 	for i := 0; i < nn; i++ {
 		n := &node{idx: i, host: fmt.Sprintf("10.2.0.%d", i+1), port: 7000 + i}
 		n.addr = fmt.Sprintf("%s:%d", n.host, n.port)
 		// timeline: a few fault phases aligned around the thresholds of the property
 		t := time.Duration(0)
+		if i == inactNode {
+			n.judgeFrom = inactTo + 4*time.Second
+			t = n.judgeFrom
+		}
 		nph := simrt.Draw(4, "c15.nphases")
 		if s.mgrMode && simrt.Draw(3, "c13m.faults") != 0 {
 			nph = 0 // mostly healthy servers: the registry is what changes
@@ -183,7 +199,9 @@ func (s *S) Run(c *scen.Ctx) {
 			}
 		}
 	}
-	if !s.hashMode && !s.mgrMode && simrt.Draw(3, "c15.refresh") == 0 {
+	if s.inactive {
+		s.refreshMs = 1000
+	} else if !s.hashMode && !s.mgrMode && simrt.Draw(3, "c15.refresh") == 0 {
 		s.refreshMs = []int{1000, 2000}[simrt.Draw(2, "c15.refreshms")]
 		c.Describe("registry_refresh_ms", s.refreshMs)
 	}
@@ -305,6 +323,29 @@ func (s *S) Run(c *scen.Ctx) {
 			}
 		})
 	}
+	if inactNode >= 0 {
+		c.Count("fault.registry_lists_endpoint_inactive_then_active", 1)
+		host := s.nodes[inactNode].host
+		simrt.GoNamed("registry", func() {
+			simrt.Sleep(inactFrom + 3*time.Millisecond)
+			s.reg.mu.Lock()
+			for j, e := range s.reg.active {
+				if e.Host == host {
+					s.reg.inactive = append(s.reg.inactive, e)
+					s.reg.active = append(s.reg.active[:j:j], s.reg.active[j+1:]...)
+					break
+				}
+			}
+			s.reg.mu.Unlock()
+			s.logRegistry()
+			simrt.Sleep(inactTo - inactFrom)
+			s.reg.mu.Lock()
+			s.reg.active = append(s.reg.active, s.reg.inactive...)
+			s.reg.inactive = nil
+			s.reg.mu.Unlock()
+			s.logRegistry()
+		})
+	}
 	if s.hashMode && simrt.Draw(2, "c14c.flips") == 1 {
 		// the registry changes the weight type / weights of all endpoints now and then
 		nfl := 1 + simrt.Draw(3, "c14c.nflips")
@@ -355,6 +396,13 @@ func (s *S) Run(c *scen.Ctx) {
 	appCtx := current.ContextWithClientCurrent(context.Background())
 	current.SetClientTimeout(appCtx, 10000)
 	c.Describe("request_contexts_derived_from_one_parent", nested)
+	// calls normally start a few microseconds off the millisecond grid, so that they never coincide
+	// with the status-check and refresh tickers; in a third of the runs they sit on the grid and do
+	callOffset := 7 * time.Microsecond
+	if simrt.Draw(3, "c15.aligned") == 2 {
+		callOffset = 0
+		c.Count("probe.calls_on_the_ticker_grid", 1)
+	}
 	gaps := []int{50, 120, 400, 1000, 1900}
 	gi := simrt.Draw(len(gaps), "c15.callgap")
 	k := 0
@@ -430,7 +478,7 @@ func (s *S) Run(c *scen.Ctx) {
 		if simrt.Draw(5, "c15.jitter") == 4 {
 			g = gaps[simrt.Draw(len(gaps), "c15.callgap")]
 		}
-		simrt.Sleep(ms(g) + 7*time.Microsecond)
+		simrt.Sleep(ms(g) + callOffset)
 	}
 	close(stop)
 	s.mu.Lock()
@@ -583,6 +631,13 @@ func (s *S) Check(c *scen.Ctx, res *simrt.Result) {
 		var outSince time.Duration = -1
 		oi := 0
 		for _, cr := range s.calls {
+			if cr.t0 < n.judgeFrom {
+				// (the registry had this endpoint on its inactive list: out of rotation for that reason)
+				for oi < len(ob) && ob[oi].t <= cr.t0 {
+					oi++
+				}
+				continue
+			}
 			// rotation changes observed up to the start of this call
 			for oi < len(ob) && ob[oi].t <= cr.t0 {
 				now := has(ob[oi].active, n.host)
@@ -606,7 +661,10 @@ func (s *S) Check(c *scen.Ctx, res *simrt.Result) {
 				continue
 			}
 			isProbe := !has(cr.activeAt, n.host)
-			othersActive := len(cr.activeAt) > 0
+			// (both at the start and at the end of the call: a status check in the same instant may
+			// have emptied the rotation between the snapshot and the selection, and then any
+			// endpoint is a legitimate target)
+			othersActive := len(cr.activeAt) > 0 && len(cr.activeT1) > 0
 			if isProbe && othersActive {
 				// a call to an endpoint outside the rotation while others are in it is a probe
 				if lastProbe < 0 && outSince >= 0 && cr.t0-outSince < 29*time.Second-maxGap-500*time.Millisecond && cr.t0 > outSince+2*time.Second {
